@@ -486,6 +486,21 @@ func (h *hostEnd) Close() error {
 	return nil
 }
 
+// drainLinks returns when no byte is in flight on any link (or the link died).
+func drainLinks(links []*pipe.Link) {
+	var gs []*core.GoResult
+	for _, l := range links {
+		for _, e := range []*pipe.End{l.A, l.B} {
+			f, ok := pipe.WithCaps(e, []string{"flusher"}).(transport.Flusher)
+			if !ok {
+				continue
+			}
+			gs = append(gs, core.Go(func() { f.Flush() }))
+		}
+	}
+	core.WaitAll(clientBudget, gs...)
+}
+
 func execC14(t *testing.T, prop string, raw json.RawMessage, trace bool) core.Outcome {
 	var out core.Outcome
 	var p Plan
@@ -542,7 +557,19 @@ func execC14(t *testing.T, prop string, raw json.RawMessage, trace bool) core.Ou
 		// clock jumps); one that is still working through its think times is
 		// given the time to finish.
 		core.WaitAll(clientBudget, others...)
-		time.Sleep(settle)
+		// Nothing is judged while bytes are still travelling: a slow link (one
+		// byte every 40 ms is a legal schedule) may need minutes for what Write
+		// has long handed over. Drain, let both sides react, drain again.
+		var links []*pipe.Link
+		if serial != nil {
+			links = append(links, serial)
+		} else {
+			links = append(links, network.Links...)
+		}
+		for pass := 0; pass < 3; pass++ {
+			drainLinks(links)
+			time.Sleep(settle)
+		}
 
 		// ---- judge the quiescent state
 		rs.judge(prop, finished, &out)
